@@ -198,7 +198,7 @@ class Runner:
                         agg[k] += int(sc.get(k, 0))
                     agg['exhaustive'] = agg['exhaustive'] and bool(sc.get('exhaustive'))
                     if len(agg['samples']) < 8 and (len(agg['samples']) < 3 or agg['processes'] % 5 == 0):
-                        agg['samples'] += sc.get('samples', [])[:1]
+                        agg['samples'] += sc.get('samples', [])[-1:]     # the last recorded sample of a process is a non-trivial one
         agg['distinct_outcomes'] = sum(len(s) for s in hashes.values())
         agg['wall_s'] = round(time.time() - t0, 1)
         agg['engine'] = 'rt'
